@@ -54,7 +54,7 @@ type jstats struct {
 }
 
 var strRunes = []rune{'a', 'b', 'Z', '0', ' ', '"', '\\', '/', '\b', '\f', '\n', '\r', '\t', 0, 0x1f, 0x7f,
-	'é', 'ß', '中', 0x2028, 0xFFFD, 0x1F600, 0x10FFFF, '<', '>', '&', '#', ':', 'x', 'y', 'k'}
+	'é', 'ß', '中', 0x2028, 0x2029, 0xFFFD, 0x1F600, 0x10FFFF, '<', '>', '&', '#', ':', 'x', 'y', 'k'}
 
 func genStr(r *vh.Rng, st *jstats, short bool) *jval {
 	n := r.Between(0, 6)
@@ -68,6 +68,14 @@ func genStr(r *vh.Rng, st *jstats, short bool) *jval {
 			// a lone surrogate escape decodes to U+FFFD; keep it from pairing with a neighbour
 			ser.WriteString(r.PickStr(`\ud800`, `\udc00`, `\uDBFF`) + "q")
 			dec.WriteString("�q")
+			st.escapes++
+			continue
+		}
+		if r.Chance(0.06) {
+			// content that LOOKS like an escape: a literal backslash followed by u003c / u003e / u0026 ...
+			lit := r.PickStr(`\u003c`, `\u003e`, `\u0026`, `\u2028`, `\u0022`, `\n`, `\\u003c`, `\`)
+			dec.WriteString(lit)
+			ser.WriteString(strings.ReplaceAll(lit, `\`, `\\`))
 			st.escapes++
 			continue
 		}
@@ -642,9 +650,17 @@ func runJSON(sum *vh.Summary, cw *vh.CaseWriter, text string, gen *jval, verbose
 			obs.CopyErr = "output is not UTF-8"
 			return
 		}
+		if !json.Valid(b) {
+			obs.CopyErr = "output is not valid JSON"
+			return
+		}
 		d := json.NewDecoder(bytes.NewReader(b))
 		if err := d.Decode(&copyVal); err != nil {
 			obs.CopyErr = "output does not decode: " + err.Error()
+			return
+		}
+		if d.More() {
+			obs.CopyErr = "output has trailing data after the JSON value"
 			return
 		}
 		copyOK = true
@@ -1062,7 +1078,7 @@ func bigDocs(r *vh.Rng, sum *vh.Summary, cw *vh.CaseWriter) {
 		}
 	}
 	for shape := 0; shape < 5; shape++ {
-		v := mk(shape, r.Between(12000, 40000))
+		v := mk(shape, r.Between(12000, 26000))
 		var sb strings.Builder
 		v.serialise(nil, &sb)
 		text := sb.String()
@@ -1292,5 +1308,36 @@ func genJSONSeq(r *vh.Rng, sum *vh.Summary) {
 		shrunkFrom = text
 		runJSONSeq(sum, b.String(), "", false)
 		shrunkFrom = ""
+	}
+}
+
+// escapeDocs: every run, strings and KEYS whose content looks like JSON escapes or needs escaping in
+// some output form (HTML-safe escapes of json.Marshal, U+2028/2029, quotes, backslashes) go through
+// the whole oracle path - in particular through the bytes Transform.Read returns for a copy.
+func escapeDocs(sum *vh.Summary, cw *vh.CaseWriter) {
+	contents := []string{`\u003c`, `\u003e`, `\u0026`, `\\u003c`, `a\u003cb\u003ec\u0026d`, `<`, `>`, `&`, `<>&`, `\<`, `\\`, `\`, `"`, `\"`,
+		"\u2028", "\u2029", `\u2028`, `\u2029`, `\n`, "\n", `\/`, `/`, `</script>`, `\u003cscript\u003e`, `\U003C`, `\u003C`, `\x3c`, `&lt;`, `&amp;`, `%3C`,
+		`\u0000`, "\x00", `'`, `\'`, `\u`, `\u00`, `u003c`, `\ u003c`}
+	arr := &jval{K: jArr}
+	obj := &jval{K: jObj}
+	seen := map[string]bool{}
+	for _, c := range contents {
+		arr.Arr = append(arr.Arr, strVal(c))
+		if !seen[c] {
+			seen[c] = true
+			obj.Keys = append(obj.Keys, strVal(c))
+			obj.Vals = append(obj.Vals, &jval{K: jObj, Keys: []*jval{strVal(c + "k")}, Vals: []*jval{strVal(c)}})
+		}
+	}
+	docs := []*jval{arr, obj}
+	for _, c := range contents[:6] {
+		docs = append(docs, strVal(c), &jval{K: jObj, Keys: []*jval{strVal(c)}, Vals: []*jval{strVal(c)}})
+	}
+	for _, v := range docs {
+		var sb strings.Builder
+		v.serialise(nil, &sb)
+		sum.Count("json:"+sb.String(), true)
+		sum.Hist("json:fixed-escape-doc")
+		runJSONShrunk(sum, cw, sb.String(), v, "")
 	}
 }
